@@ -434,6 +434,17 @@ def check(prop, tier, seed):
     xc = crosscheck(results, sample_by_key, api)
     if xc["disagreements"]:
         d = xc["disagreements"][0]
+        confirmed = [v for v in violations if v["confirmed"]]
+        if confirmed:
+            # a failing input replayed on the real code is ground truth whatever the engine's fidelity: report it (the
+            # disagreement usually is the same defect seen twice: behaviour that depends on earlier calls in the process)
+            print(f"WARNING property={prop}: engine and CPython disagree on {d}")
+            write_evidence(prop, tier, seed, t0, results, confirmed, bounded, samples, api, note="engine/CPython disagreement", xc=xc)
+            for v in confirmed:
+                print(f"VIOLATION property={prop} replay={v['replay']} obligation={v['instance']}/{v['obligation']}")
+                if v.get("why"):
+                    print(f"  why: {v['why'] if isinstance(v['why'], str) else '; '.join(v['why'][:2])}")
+            return 1
         print(f"CHECKER-BROKEN property={prop}: engine and CPython disagree on {d}")
         write_evidence(prop, tier, seed, t0, results, violations, bounded, samples, api, note="engine/CPython disagreement", xc=xc)
         return 3
@@ -471,6 +482,7 @@ def crosscheck(results, sample_by_key, api):
     from .objs import PyRaise, Env
     import ast
     v = Verifier(repo=REPO, verif=VERIF)
+    snap = v._snapshot_state()
     agree = dis = skipped = 0
     disagreements = []
     for r in results:
@@ -480,6 +492,7 @@ def crosscheck(results, sample_by_key, api):
         smp = sample_by_key.get((r["contract"], json.dumps(r["binding"], sort_keys=True)), {})
         for case in smp.get("xcheck", [])[:25]:
             try:
+                v._restore_state(snap)          # stand-ins installed by another contract's setup must not leak
                 set_ctx(PathCtx())
                 vars_ = dict(v.base_ns)
                 for k, e in r["binding"].items():
